@@ -114,6 +114,11 @@ type G struct {
 	// combinations the documentation does not show). It is only used by properties that quantify
 	// over every ACCEPTED input (C01, C04, C05 ...), never where G stands for the documentation (C02, C08).
 	Relaxed bool
+	// Long allows one very long list (120..330 elements) per sentence.
+	Long       bool
+	longUsed   bool
+	mediumUsed int
+	longForm   string
 	// NoWithExpr suppresses the WITH(...) expression (inside THEN RETURN, where a leading WITH
 	// is read as WITH ACTION).
 	NoWithExpr bool
@@ -197,6 +202,28 @@ func (g *G) count(tag string, min, max int) int {
 		g.tag(tag + "#relaxed-0")
 		return min - 1
 	}
+	if max > min && max >= 2 {
+		// list lengths beyond the usual 0/1/2/3: medium (4..12) sometimes, long (120..330) in Long mode only.
+		// The bounds passed by the productions are generator bounds, not limits of the grammar.
+		switch rapid.IntRange(0, 39).Draw(g.T, g.label(tag+"#size")) {
+		case 0, 1:
+			if g.mediumUsed >= 2 {
+				break // at most two medium lists per sentence: nested medium lists multiply the sentence size
+			}
+			g.mediumUsed++
+			g.tag(tag + "#medium")
+			return rapid.IntRange(4, 12).Draw(g.T, g.label(tag+"#medium"))
+		case 2:
+			if g.Long && !g.longUsed {
+				g.longUsed = true
+				g.Depth = 0 // the elements of a very long list are atoms or one small composite form, to keep the sentence tractable
+				g.longForm = []string{"atom", "tuple", "paren", "call", "array", "struct", "nested-tuple", "unary", "binary", "mixed", "tuple", "mixed"}[rapid.IntRange(0, 11).Draw(g.T, g.label(tag+"#longform"))]
+				g.tag("long.form:" + g.longForm)
+				g.tag(tag + "#long")
+				return rapid.IntRange(120, 330).Draw(g.T, g.label(tag+"#long"))
+			}
+		}
+	}
 	if max <= min {
 		return min
 	}
@@ -255,6 +282,10 @@ var reservedList = func() []string {
 
 var quotedNames = []string{"select", "", "ORDER", "", "a b", "1x", "x-y", "日本", "a`b", "a\\b", "", "", "null", "table name", "Hash", "proto", "new", "é", "a.b", "'q'", "x\ny"}
 
+// confusableNames case-fold (under full Unicode folding) to builtin type names / pseudo keywords but are different identifiers:
+// U+017F LATIN SMALL LETTER LONG S for s, U+212A KELVIN SIGN for k.
+var confusableNames = []string{"\u017fTRING", "\u017fAFE_OFF\u017fET", "TO\u212aENLIST", "OFF\u017fET", "\u212aEY", "BYTE\u017f", "IN\u017fERT", "\u017fELECT", "TIME\u017fTAMP", "J\u017fON"}
+
 var pseudoNames = []string{"value", "key", "table", "index", "options", "insert", "update", "delete", "replace", "date", "timestamp",
 	"sequence", "model", "min", "max", "row", "policy", "action", "stored", "hidden", "column", "constraint", "foreign", "check", "synonym",
 	"safe_cast", "replace_fields", "numeric", "json", "count", "percent", "bernoulli", "role", "view", "graph", "label", "properties", "source",
@@ -274,6 +305,9 @@ func (g *G) name(pos identPos) Frag {
 	switch {
 	case c < 6:
 		return both(Lex{K: ID, V: plainNames[rapid.IntRange(0, len(plainNames)-1).Draw(g.T, g.label("name.plain"))]})
+	case c < 8 && rapid.IntRange(0, 7).Draw(g.T, g.label("name.confusable")) == 0:
+		g.tag("ident.unicode-confusable")
+		return both(Lex{K: ID, V: confusableNames[rapid.IntRange(0, len(confusableNames)-1).Draw(g.T, g.label("name.confusable.n"))]})
 	case c < 8:
 		n := quotedNames[rapid.IntRange(0, len(quotedNames)-1).Draw(g.T, g.label("name.quoted"))]
 		if n == "" {
@@ -360,7 +394,8 @@ func (g *G) bytesLit() Frag {
 	return both(Lex{K: BYTES, V: v})
 }
 
-var intSpellings = []string{"0", "1", "2", "10", "42", "1234567", "0x0", "0xFF", "0X1f", "007", "9223372036854775807"}
+var intSpellings = []string{"0", "1", "2", "10", "42", "1234567", "0x0", "0xFF", "0X1f", "007", "9223372036854775807",
+	"08", "09", "99999999999999999999", "0xFFFFFFFFFFFFFFFFF", "9223372036854775808", "00"}
 var floatSpellings = []string{"1.5", "1.", "1e10", "1.5e-3", "2E+4", "0.0", "123.456e7", "1.e2", "0.5"}
 
 // leading-dot spellings are only written right after an operator (a '.' after an identifier-like token starts dot-identifier mode)
